@@ -19,6 +19,19 @@ pub mod c15;
 pub mod c16;
 pub mod c18;
 pub mod c19;
+#[cfg(feature = "full")]
+pub mod c20;
+#[cfg(not(feature = "full"))]
+pub mod c20 {
+    //! C20 needs the `overlapped-lists` feature: only the `full` build has it.
+    pub fn run(_ctx: &crate::common::Ctx) {
+        eprintln!("C20 needs the full build");
+        std::process::exit(2);
+    }
+    pub fn replay(_case: &serde_json::Value) -> Result<(), String> {
+        Err("C20 needs the full build".into())
+    }
+}
 
 pub type RunFn = fn(&mut Ctx);
 
@@ -58,4 +71,5 @@ table! {
     "C16" => c16::run, c01::replay;
     "C18" => c18::run, c18::replay;
     "C19" => c19::run, c19::replay;
+    "C20" => c20::run, c20::replay;
 }
